@@ -20,8 +20,8 @@ pub static DEF: CheckDef = CheckDef {
     id: "C31",
     variants: &["sim-store", "sim-store-faults", "lru-store"],
     run,
-    quick_runs: 15_000,
-    thorough_runs: 600_000,
+    quick_runs: 200_000,
+    thorough_runs: 15_000_000,
     rule: "case = real ApolloPersistedQueries extension over a simulated store (exact map with gated get/set, optional lost entries) or the real LruCacheStorage (<= 8 documents per run); 1-4 concurrent client tasks, each sending 1-4 requests: registrations (query + correct hash), hash-only requests, mismatched hashes (other document's hash, garbage, upper-case), wrong versions, malformed persistedQuery payloads, ordinary requests; every document echoes a unique number through a gated harness resolver so the executed document is observable. Oracle (reference model of registrations over the invoke/return history): a registration executes its own document; a hash-only request yields exactly the document whose text hashes to the supplied hash - and only if a registration of it was invoked before the request returned - or PersistedQueryNotFound; mismatched-hash, wrong-version and malformed requests fail and register nothing (no store write with a key that is not the SHA-256 of a registered text; no later hit); every client finishes. Non-trivial = a hash-only request overlapped a registration of the same document, or a rejected request was followed by a hash-only lookup of its hash; distinct = distinct event-order hashes.",
     real: &["ApolloPersistedQueries extension (prepare_request)", "LruCacheStorage / scc HashCache (lru-store variant)", "Schema::execute pipeline"],
     stub: &["CacheStorage (simulated, gated; sim-store variants)", "clients", "resolvers (gated)", "async runtime"],
